@@ -17,6 +17,8 @@ is proved (`int_or_float_within_1e9`).
 -/
 namespace RT
 
+variable {P : Parts} (L : PartLaws P)
+
 /-! ## the number lemma -/
 
 /-- guard of the number lemma: zero, or of magnitude above `f64::EPSILON` -/
@@ -118,11 +120,11 @@ theorem crlfToLf_not_idempotent_counterexample :
 
 /-- a font whose first layer is the default one (every font the containers can hold, C06) loads with
     its layers in the saved order -/
-theorem layers_roundtrip_order (l : Layer) (r : List Layer) (h : l.dir = glyphsDir) :
+theorem layers_roundtrip_order (l : (Layer P)) (r : List (Layer P)) (h : l.dir = glyphsDir) :
     defaultFirst (l :: r) = .ok (l :: r) := defaultFirst_id l r h
 
 /-- foreign input (C04): the default layer is moved to the front, the others keep their file order -/
-theorem layers_default_moved_to_front (ls : List Layer) (i : Nat) (h : findDefault ls = some i) :
+theorem layers_default_moved_to_front (ls : List (Layer P)) (i : Nat) (h : findDefault ls = some i) :
     ∃ d, ls[i]? = some d ∧ d.dir = glyphsDir ∧ defaultFirst ls = .ok (d :: ls.eraseIdx i) := by
   obtain ⟨d, h1, h2, _⟩ := findDefault_spec ls i h
   exact ⟨d, h1, h2, by simp [defaultFirst, h, h1]⟩
@@ -130,9 +132,10 @@ theorem layers_default_moved_to_front (ls : List Layer) (i : Nat) (h : findDefau
 /-! ## metainfo -/
 
 /-- whatever the creator of the font in memory, what is written says norad, format 3 -/
-theorem metainfo_roundtrip (f : Font) (t : Tree) (h : saveFont f = .ok t) :
+theorem metainfo_roundtrip (f : (Font P)) (t : (Tree P)) (h : saveFont f = .ok t) :
     t.creator = some defaultCreator ∧ t.fv = 3 := by
   unfold saveFont at h
+  split at h; · cases h
   split at h; · cases h
   split at h; · cases h
   split at h; · cases h
@@ -174,8 +177,13 @@ def OptRel {α β : Type} (R : α → β → Prop) : Option α → Option β →
 
 def GuideEquiv (g g' : Guide) : Prop := g'.id = g.id ∧ g'.rest = g.rest ∧ OptRel DictEquiv g.lib g'.lib
 
-def LayerEquiv (l l' : Layer) : Prop :=
-  l'.name = l.name ∧ l'.dir = l.dir ∧ OptRel ColEquiv l.color l'.color ∧ DictEquiv l.lib l'.lib ∧ l'.glyphs = l.glyphs
+/-- a glyph after the round trip: same name, same file, and the glyph the parser returns for the
+    written one (`normGlyph`: the identity for opaque tokens; C02's `normG` for norad's glif codec) -/
+def GlyphEquiv (g g' : (GlyphE P)) : Prop := g'.name = g.name ∧ g'.file = g.file ∧ g'.tok = L.normGlyph g.tok
+
+def LayerEquiv (l l' : (Layer P)) : Prop :=
+  l'.name = l.name ∧ l'.dir = l.dir ∧ OptRel ColEquiv l.color l'.color ∧ DictEquiv l.lib l'.lib ∧
+  List.Forall₂ (GlyphEquiv L) l.glyphs l'.glyphs
 
 def NumEntryEquiv (a b : String × NumV) : Prop :=
   b.1 = a.1 ∧ (if isLenKey a.1 = true then b.2 = a.2 else CloseV b.2 a.2)
@@ -183,7 +191,7 @@ def NumEntryEquiv (a b : String × NumV) : Prop :=
 /-- "the same font": what C01 demands of `load(save(f))`.  Layers in the same order; numbers within
     1e-9 relative; colours to three decimals; dictionaries as maps; feature text up to CR LF; the
     un-modelled parts (glyph tokens, other font-info fields, store entries) identical -/
-structure FontEquiv (f f' : Font) : Prop where
+structure FontEquiv (f f' : (Font P)) : Prop where
   creator : f'.creator = some defaultCreator
   fv : f'.fv = 3
   nums : List.Forall₂ NumEntryEquiv f.info.nums f'.info.nums
@@ -195,7 +203,7 @@ structure FontEquiv (f f' : Font) : Prop where
   kerning : List.Forall₂ (fun a b => b.1 = a.1 ∧ List.Forall₂ (fun p q => q.1 = p.1 ∧ CloseV q.2 p.2) a.2 b.2)
     f.kerning f'.kerning
   features : lfNorm f'.features = lfNorm f.features
-  layers : List.Forall₂ LayerEquiv f.layers f'.layers
+  layers : List.Forall₂ (LayerEquiv L) f.layers f'.layers
   data : f'.data = f.data
   images : f'.images = f.images
 
@@ -205,7 +213,7 @@ def ColOK : ColV → Prop
   | .milli _ _ _ _ => True
 
 /-- the number guards of `font_roundtrip` (the recorded finding lives outside them) -/
-structure NumbersOK (f : Font) : Prop where
+structure NumbersOK (f : (Font P)) : Prop where
   info : ∀ e ∈ f.info.nums, isLenKey e.1 = false → NumOK e.2
   upm : ∀ v, f.info.upm = some v → NumOK v ∧ ∀ q, v.val? = some q → 0 ≤ q
   kerning : ∀ e ∈ f.kerning, ∀ p ∈ e.2, NumOK p.2
@@ -253,9 +261,10 @@ theorem chanEq_milli (x : Nat) (h : ∃ q, decode x = some q ∧ 0 ≤ q) : Chan
   exact ⟨q, h1, by simpa [chanMilli, h1] using milliOf_close q h2⟩
 
 /-- `layerinfo_roundtrip`: colour to three decimals, lib as a map -/
-theorem layerinfo_roundtrip (l : Layer) (hc : ∀ c, l.color = some c → ColOK c) :
-    LayerEquiv l (rtLayer l) := by
-  refine ⟨rfl, rfl, ?_, dictEquiv_sort l.lib, rfl⟩
+theorem layerinfo_roundtrip (l : (Layer P)) (hc : ∀ c, l.color = some c → ColOK c) :
+    LayerEquiv L l (rtLayer L l) := by
+  refine ⟨rfl, rfl, ?_, dictEquiv_sort l.lib,
+    forall₂_map_self (GlyphEquiv L) (normE L) l.glyphs (fun g _ => ⟨rfl, rfl, rfl⟩)⟩
   simp only [rtLayer]
   cases hcol : l.color with
   | none => trivial
@@ -268,7 +277,7 @@ theorem layerinfo_roundtrip (l : Layer) (hc : ∀ c, l.color = some c → ColOK 
         chanEq_milli a (hx a (by simp))⟩
     | milli r g b a => simp [OptRel, milliCol, saveColor, ColEquiv]
 
-theorem dictEquiv_rtLib (f : Font) (hk : lookupKV objectLibsKey f.lib = none) : DictEquiv f.lib (rtLib f) := by
+theorem dictEquiv_rtLib (f : (Font P)) (hk : lookupKV objectLibsKey f.lib = none) : DictEquiv f.lib (rtLib f) := by
   unfold rtLib
   split
   · exact dictEquiv_sort f.lib
@@ -310,14 +319,14 @@ theorem guides_roundtrip (gs : List Guide) : List.Forall₂ GuideEquiv gs (gs.ma
     text up to CR LF, data and images; numbers within 1e-9 relative.  The write options do not occur:
     the abstract file values do not depend on them (indentation and quoting are below this model; the
     correspondence runs every case under varying options). -/
-theorem font_roundtrip (f : Font) (hv : ValidFont f) (hn : NumbersOK f) :
-    ∃ t f', saveFont f = .ok t ∧ loadFont t = .ok f' ∧ FontEquiv f f' := by
-  obtain ⟨t, h1, h2⟩ := save_load_eq f hv
-  refine ⟨t, rtFont f, h1, h2, ?_⟩
+theorem font_roundtrip (f : (Font P)) (hv : ValidFont L f) (hn : NumbersOK f) :
+    ∃ t f', saveFont f = .ok t ∧ loadFont t = .ok f' ∧ FontEquiv L f f' := by
+  obtain ⟨t, h1, h2⟩ := save_load_eq L f hv
+  refine ⟨t, rtFont L f, h1, h2, ?_⟩
   refine { creator := rfl, fv := rfl, nums := ?_, upm := ?_, guides := ?_, rest := rfl,
            lib := dictEquiv_rtLib f hv.noKey, groups := rfl, kerning := kerning_roundtrip _ hn.kerning,
            features := features_roundtrip _, layers := ?_, data := rfl, images := rfl }
-  · have : (rtFont f).info.nums = f.info.nums.map
+  · have : (rtFont L f).info.nums = f.info.nums.map
         (fun e => (e.1, readNum (if isLenKey e.1 = true then NumW.real e.2 else writeWith infoWrite e.2))) := by
       simp [rtFont, rtInfo, loadNums, saveNums, List.map_map, Function.comp_def]
     rw [this]
@@ -357,10 +366,10 @@ theorem font_roundtrip (f : Font) (hv : ValidFont f) (hn : NumbersOK f) :
   · simp only [rtFont]
     apply forall₂_map_self
     intro l hl
-    exact layerinfo_roundtrip l (hn.colours l hl)
+    exact layerinfo_roundtrip L l (hn.colours l hl)
 
 /-- non-vacuity: the empty font is valid and inside the number guards -/
-def emptyFont : Font where
+def emptyFont : Font tokenParts where
   creator := none
   fv := 3
   minor := 0
@@ -373,7 +382,7 @@ def emptyFont : Font where
   data := []
   images := []
 
-example : ValidFont emptyFont where
+example : ValidFont tokenLaws emptyFont where
   fv := rfl
   noKey := rfl
   ids := rfl
@@ -381,5 +390,7 @@ example : ValidFont emptyFont where
   dirs := by decide
   defFirst := ⟨_, _, rfl, rfl⟩
   files := by intro l hl; simp [emptyFont] at hl; subst hl; rfl
+  glyphsOK := by intro l hl g hg; simp [emptyFont] at hl; subst hl; cases hg
+  restValid := rfl
 
 end RT
